@@ -10,3 +10,4 @@ cp evidence/$ID.json /tmp/evidence_$ID.bak 2>/dev/null
 grep -E "VIOLATION|KNOWN" /tmp/trymut.out | head -3
 echo "rc=$RC"; grep -E "^\[$ID\]|CHECK-ERROR|\"what\"" /tmp/trymut.err | head -4
 cp /tmp/evidence_$ID.bak evidence/$ID.json 2>/dev/null; git -C /repo checkout -- . ; python3 /verif/lib/extract.py >/dev/null; git -C /repo status --short | head -3
+cd /verif && python3 -c "from lib import core; core.build_harness('debug')" >/dev/null 2>&1
